@@ -47,6 +47,7 @@ if __name__ == "__main__":
     SAVE = lambda **kw: dict({"op": "save", "packaging": "zip", "target": "bytesio", "pretty": False}, **kw)
     E["fixed-C03-set_part-after-parse"] = ("C03", [{"op": "init", "source": "template:text"}, {"op": "touch", "part": "content"}, {"op": "set_part", "kind": "xml", "n": 1, "name": "content.xml"}, SAVE()], "pass")
     E["fixed-C03-set_part-folder-src"] = ("C03", [{"op": "init", "source": "sample:example.odt", "how": "folder", "salt": 0}, {"op": "set_part", "kind": "xml", "n": 1, "name": "meta.xml"}, {"op": "touch", "part": "meta"}, SAVE()], "pass")
+    E["fixed-C03-set_part-folder-src-touched"] = ("C03", [{"op": "init", "source": "sample:simple_table.ods", "how": "folder", "salt": 2}, {"op": "set_part", "kind": "xml", "n": 0, "name": "settings.xml", "dt": 3.0}, {"op": "env_touch_source", "name": "settings.xml", "dt": 0.2, "dt2": 0.0}, {"op": "touch", "part": "settings", "dt": 0.6}], "pass")
     E["fixed-C03-flat-xml-image"] = ("C03", [{"op": "init", "source": "sample:chart.odt", "how": "path", "salt": 0}, SAVE(packaging="xml", target="path")], "pass")
     E["fixed-C04-del_part-manifest"] = ("C04", [{"op": "init", "source": "template:spreadsheet"}, {"op": "del_part", "name": "Thumbnails/thumbnail.png"}, SAVE()], "pass")
     E["fixed-C04-add_file-twice"] = ("C04", [{"op": "init", "source": "template:text"}, {"op": "add_file", "via": "path", "content": 0}, {"op": "add_file", "via": "pathobj", "content": 0}, SAVE()], "pass")
@@ -54,6 +55,8 @@ if __name__ == "__main__":
     E["fixed-C04-clone-drops-unsaved"] = ("C04", [{"op": "init", "source": "sample:table.odt", "how": "path", "salt": 0}, {"op": "add_file", "via": "pathobj", "content": 2}, {"op": "clone_swap"}, SAVE()], "pass")
     E["C04-empty-dir-entry-after-del_part"] = ("C04", [{"op": "init", "source": "sample:md_style.odt", "how": "path", "salt": 0}, {"op": "edit", "kind": "image", "n": 1}, {"op": "del_part", "name": "Pictures/ceddccf10506d07cc0990639e79f8c72.png"}, SAVE()], "violation")
     E["C03-rdf-default-after-torn-source"] = ("C03", [{"op": "init", "source": "sample:pagebreak.odt", "how": "path", "salt": 0}, SAVE(target="inplace", fault={"site": "writestr", "k": 1, "errno": "EACCES", "partial": False}), SAVE(target="path")], "violation")
+    E["C03-folder-save-ignores-failed-rmtree"] = ("C03", [{"op": "init", "source": "sample:note.odt", "how": "folder", "salt": 6}, {"op": "del_part", "name": "Thumbnails/thumbnail.png"}, SAVE(packaging="folder", target="inplace", fault={"site": "rmtree", "k": 1, "errno": "EACCES", "partial": True})], "violation")
+    E["C03-folder-save-ignores-failed-move"] = ("C03", [{"op": "init", "source": "sample:note.odt", "how": "folder", "salt": 6}, {"op": "del_part", "name": "Thumbnails/thumbnail.png"}, SAVE(packaging="folder", target="inplace", fault={"site": "move", "k": 1, "errno": "EACCES", "partial": True}, backup=True)], "violation")
     E["C11-pretty-inline-tail-indent"] = ("C11", [{"op": "init", "source": "template:text"}, {"op": "rich_para", "xml": "<text:p>alpha<text:tab/><text:span text:style-name=\"T1\">beta</text:span></text:p>"}, {"op": "save_set", "variants": [{"packaging": "zip", "pretty": True, "target": "bytesio"}]}], "violation")
     E["fixed-C11-pretty-save-edits-memory"] = ("C11", [{"op": "init", "source": "sample:list.odt", "how": "path", "salt": 0}, {"op": "save_set", "variants": [{"packaging": "folder", "pretty": None, "target": "path"}]}], "pass")
     DCFG = {"max_steps": 40, "leg": "D"}
